@@ -306,6 +306,28 @@ func c06SingleWriter(p *core.Program, r *core.Report, t *types.Named) {
 				if a.High != nil || a.Low == nil {
 					return true
 				}
+				// for left := len(buf); left > 0; { n, err := wr.Write(buf[len(buf)-left:]); left -= n }
+				if lo, isB := ast.Unparen(a.Low).(*ast.BinaryExpr); isB && lo.Op == token.SUB && objOf(a.X) != nil && isLenOf(lo.X, objOf(a.X)) {
+					if left := objOf(lo.Y); left != nil {
+						condOK := (cond.Op == token.GTR && objOf(cond.X) == left && isZero(cond.Y)) || (cond.Op == token.LSS && isZero(cond.X) && objOf(cond.Y) == left)
+						dec := false
+						ast.Inspect(loop.Body, func(m ast.Node) bool {
+							if as, isA := m.(*ast.AssignStmt); isA && len(as.Lhs) == 1 && len(as.Rhs) == 1 && objOf(as.Lhs[0]) == left {
+								if as.Tok == token.SUB_ASSIGN && objOf(as.Rhs[0]) == nobj {
+									dec = true
+								}
+								if be, isB := ast.Unparen(as.Rhs[0]).(*ast.BinaryExpr); isB && as.Tok == token.ASSIGN && be.Op == token.SUB && objOf(be.X) == left && objOf(be.Y) == nobj {
+									dec = true
+								}
+							}
+							return true
+						})
+						if condOK && dec {
+							ok = true
+						}
+					}
+					return true
+				}
 				buf, pos := objOf(a.X), objOf(a.Low)
 				if buf == nil || pos == nil {
 					return true
@@ -537,6 +559,34 @@ func c06CloseOnError(p *core.Program, r *core.Report, t *types.Named) {
 			}
 			return true
 		})
+		if !ok {
+			// send() calls Connect() unconditionally and Connect() itself returns at once when a
+			// connection is up: the same thing
+			callsConnect := false
+			for _, st := range fi.Decl.Body.List {
+				ast.Inspect(st, func(n ast.Node) bool {
+					if _, isLit := n.(*ast.FuncLit); isLit {
+						return false
+					}
+					if call, isC := n.(*ast.CallExpr); isC && strings.HasSuffix(stripSpaces(types.ExprString(call.Fun)), ".Connect") {
+						if _, isFor := st.(*ast.ForStmt); !isFor {
+							callsConnect = true
+						}
+					}
+					return true
+				})
+			}
+			if cfi := p.Method("net/oneway", "OneWayTcpClient", "Connect"); callsConnect && cfi != nil && cfi.Decl.Body != nil {
+				ast.Inspect(cfi.Decl.Body, func(n ast.Node) bool {
+					if ifs, isIf := n.(*ast.IfStmt); isIf && strings.HasSuffix(stripSpaces(types.ExprString(ifs.Cond)), ".conn!=nil") && len(ifs.Body.List) > 0 {
+						if _, isRet := ifs.Body.List[len(ifs.Body.List)-1].(*ast.ReturnStmt); isRet {
+							ok = true
+						}
+					}
+					return true
+				})
+			}
+		}
 		r.Check(ok, "C06.close-on-error", "net/oneway.OneWayTcpClient.send reconnects", p.Pos(fi.Decl.Pos()), "connects when there is no connection", "send() does not reconnect when the connection was dropped")
 	}
 }
